@@ -121,7 +121,7 @@ Definition new_reader (crc16 : bool) (s : list bytes) : option reader :=
                        rbits := {| src := s2; bbuf := []; bn := 0; bbits := 0; berr := ErrNone;
                                    crcsum := crc_feed 0 sb |};
                        rerr_ := ErrNone; rcrc16 := crc16; hcrc := le_to_N cb; hsize := size;
-                       rpos := 0%Z; rr := lz_N - lz_R; rpend := [] |}
+                       rpos := 0%Z; rr := lz_N - lz_F; rpend := [] |}
       end
   end.
 
